@@ -86,3 +86,57 @@ R.contract(
     modifies=["Call.gt", "Call.gt_none", "Call.ph", "Call.tag_none", "Call.tag_int", "Call.tag_list"],
     extra={"assume_asserts": [0]},
     props=["C03", "C09"])
+
+
+# ---------------------------------------------------------------------------------------------------------------------------------
+# VcfAugmenter._iterrecords / write_unchanged (C04: records are streamed from the input in order, one chromosome at a time; chromosomes that are
+# not phased are written back untouched).  self._reader_iter is an iterator OBJECT over the file's records (items + cursor): a for loop over it consumes.
+R.declare_class("RecIter", {"items": LIST(REF("Record")), "cursor": INT})
+R.declare_class("Aug", {"_unprocessed_record": REF("Record"), "_reader_iter": REF("RecIter"), "_writer": REF("Writer")})
+R.iterator_models["RecIter"] = ("items", "cursor")
+
+_IT = "self._reader_iter"
+_OFF = "(0 if old(self._unprocessed_record) is None else 1)"
+_TAKEN = "(len(__yielded__) - " + _OFF + ")"
+_STREAM = [
+    ("pending-record-first", "implies(old(self._unprocessed_record) is not None, len(__yielded__) >= 1 and __yielded__[0] is old(self._unprocessed_record))"),
+    ("then-the-next-records-of-this-chromosome-in-file-order", "len(__yielded__) >= " + _OFF + " and forall(k, implies(0 <= k and k < " + _TAKEN + ", "
+        "__yielded__[" + _OFF + " + k] is " + _IT + ".items[old(" + _IT + ".cursor) + k] and " + _IT + ".items[old(" + _IT + ".cursor) + k].chrom == chromosome))"),
+    ("stops-exactly-at-the-first-record-of-another-chromosome-and-keeps-it",
+        "(old(" + _IT + ".cursor) + " + _TAKEN + " == len(" + _IT + ".items) and " + _IT + ".cursor == len(" + _IT + ".items) and self._unprocessed_record is old(self._unprocessed_record)) or "
+        "(old(" + _IT + ".cursor) + " + _TAKEN + " < len(" + _IT + ".items) and " + _IT + ".items[old(" + _IT + ".cursor) + " + _TAKEN + "].chrom != chromosome and "
+        + _IT + ".cursor == old(" + _IT + ".cursor) + " + _TAKEN + " + 1 and self._unprocessed_record is " + _IT + ".items[old(" + _IT + ".cursor) + " + _TAKEN + "])"),
+]
+_IT_REQ = [
+    ("iterator-valid", "self._reader_iter is not None and 0 <= " + _IT + ".cursor and " + _IT + ".cursor <= len(" + _IT + ".items) and "
+                       "forall(k, implies(0 <= k and k < len(" + _IT + ".items), " + _IT + ".items[k] is not None))"),
+    ("pending-record-belongs-to-this-chromosome", "implies(self._unprocessed_record is not None, self._unprocessed_record.chrom == chromosome)"),
+    ("chromosomes-are-asked-for-in-file-order", "implies(self._unprocessed_record is None and " + _IT + ".cursor < len(" + _IT + ".items), " + _IT + ".items[" + _IT + ".cursor].chrom == chromosome)"),
+]
+R.contract(
+    "VcfAugmenter._iterrecords", params={"self": REF("Aug"), "chromosome": INT},
+    requires=_IT_REQ, ensures=_STREAM,
+    modifies=["RecIter.cursor", "Aug._unprocessed_record"],
+    locals={"n": INT, "record": REF("Record")},
+    loops={0: dict(index="ci", inv=[
+        ("count", "n == " + _OFF + " + (ci - old(" + _IT + ".cursor)) and len(__yielded__) == n"),
+        ("first", "implies(old(self._unprocessed_record) is not None, __yielded__[0] is old(self._unprocessed_record))"),
+        ("taken", "forall(k, implies(0 <= k and k < ci - old(" + _IT + ".cursor), __yielded__[" + _OFF + " + k] is " + _IT + ".items[old(" + _IT + ".cursor) + k] and "
+                  + _IT + ".items[old(" + _IT + ".cursor) + k].chrom == chromosome))"),
+        ("pending-kept", "self._unprocessed_record is old(self._unprocessed_record) and self._reader_iter is old(self._reader_iter)")])},
+    extra={"yields": REF("Record"), "nullable": {}},
+    props=["C04"])
+
+_W = "self._writer.written"
+_WSTREAM = [(t, c.replace("len(__yielded__)", "(len(" + _W + ") - old(len(" + _W + ")))").replace("__yielded__[", _W + "[old(len(" + _W + ")) + ")) for t, c in _STREAM]
+R.contract(
+    "VcfAugmenter.write_unchanged", params={"self": REF("Aug"), "chromosome": INT},
+    requires=_IT_REQ + [("writer", "self._writer is not None")],
+    ensures=[("earlier-output-kept", "forall(k, implies(0 <= k and k < old(len(" + _W + ")), " + _W + "[k] is old(" + _W + "[k])))")] + _WSTREAM,
+    modifies=["RecIter.cursor", "Aug._unprocessed_record", "Writer.written", "Record.frozen"],
+    locals={"record": REF("Record")},
+    loops={0: dict(index="wi", modifies=["Writer.written", "Record.frozen"],
+                   inv=[("written", "len(" + _W + ") == old(len(" + _W + ")) + wi and forall(k, implies(0 <= k and k < wi, " + _W + "[old(len(" + _W + ")) + k] is seq(0)[k]))"),
+                        ("earlier", "forall(k, implies(0 <= k and k < old(len(" + _W + ")), " + _W + "[k] is old(" + _W + "[k])))"),
+                        ("same-writer", "self._writer is old(self._writer) and self._writer is not None")])},
+    props=["C04"])
